@@ -59,6 +59,12 @@ def save_load_cores(E, s):
         x = x[key]
     if s.get('transposed'):
         x = x.t()
+    if s.get('conj'):
+        x = x.conj()          # complex dtypes: the cores are lazy conjugate views
+        if s['conj'] == 'twice':
+            x = x.conj()
+        elif s['conj'] == 'sliced':
+            x = x[tuple(slice(0, None, 2) for n in s['N']) * (2 if 'M' in s else 1)]
     _roundtrip(E, x, 'cores')
 
 
@@ -104,7 +110,24 @@ def copies(E, s):
     elif op == 'to_same':
         y = x.to(dtype=E.dt(s['dtype']))
     elif op == 'to_other':
-        y = x.to(dtype=E.dt(s['to']))
+        form = s.get('form', 'dtype_kw')
+        dt = E.dt(s['to'])
+        if form == 'dtype_kw':
+            y = x.to(dtype=dt)
+        elif form == 'dev_dtype_kw':
+            y = x.to(device='cpu', dtype=dt)
+        elif form == 'dev_dtype_pos':
+            y = x.to('cpu', dt)
+        elif form == 'devobj_dtype':
+            y = x.to(tn.device('cpu'), dtype=dt)
+        elif form == 'none_dtype':
+            y = x.to(None, dt)
+        else:
+            raise ValueError(form)
+    elif op == 'to_noargs':
+        y = x.to()
+    elif op == 'to_devonly':
+        y = x.to(device='cpu') if s.get('form') != 'devobj' else x.to(tn.device('cpu'))
     elif op == 'numpy':
         a = x.numpy()
         E.true('is_ndarray', isinstance(a, E.np.ndarray))
